@@ -971,7 +971,8 @@ impl DebugSession {
                 }
                 (MachineRunningState::Running, MachineRunningState::Running) => (),
                 (MachineRunningState::Launching, _) | (_, MachineRunningState::Launching) => {
-                    panic!("Should never receive any machine events during launch.");
+                    // E.g. a 'pause' that is sent before 'configurationDone': nothing the client needs to be told about
+                    log::debug!("Ignoring a machine event during launch.");
                 }
             },
             MachineEvent::Message { output, location } => {
